@@ -395,8 +395,14 @@ func (ex *Exec) makeSlice(fr *Frame, instr *ssa.MakeSlice, ln, cp *Term) Value {
 			panic(abortPath{"stop", "allocation above cap"})
 		}
 	}
-	n := int(ex.concretize(ln64, "make-len"))
-	c := int(ex.concretize(cp64, "make-cap"))
+	var n, c int
+	if !ln64.IsConst() && !ex.branch(mkCmp(OpSLe, ln64, mkConst(64, uint64(ex.cfg.MakeEnumLimit))), "make-small") {
+		// lengths above the enumeration limit: one representative (recorded cut)
+		n = int(ex.pickOne(ln64, "make-len above enumeration limit: one representative length"))
+	} else {
+		n = int(ex.concretize(ln64, "make-len"))
+	}
+	c = int(ex.concretize(cp64, "make-cap"))
 	if n < 0 || c < n {
 		ex.throw(fr, instr.Pos(), "makeslice: len out of range")
 	}
